@@ -445,6 +445,18 @@ func (g *Gen) loopHead(h *ssa.BasicBlock, k int, fpreds []*ssa.BasicBlock) {
 				continue
 			}
 			srt := g.pass1.svSort[n]
+			if bases, ok := g.preciseLoopWrites(h, n); ok && !wild {
+				// every write of the loop to this heap is a store at a loop-invariant base: only those rows/objects change
+				cur := g.sv(n, srt)
+				term := cur
+				_, vs, two := arraySorts(srt)
+				_ = two
+				for _, b := range bases {
+					term = fmt.Sprintf("(store %s %s %s)", term, b, g.newConst("lh", vs))
+				}
+				g.setSV(n, srt, term)
+				continue
+			}
 			if n == "$alloc" {
 				old := g.sv(n, srt)
 				nv := g.havocSV(n, srt)
@@ -553,6 +565,9 @@ func (g *Gen) backEdge(b, h *ssa.BasicBlock, k int) {
 // ---- instructions ------------------------------------------------------------------------
 
 func (g *Gen) instr(b *ssa.BasicBlock, idx int, ins ssa.Instruction) {
+	if p := ins.Pos(); p.IsValid() {
+		g.curCode = g.pos(p)
+	}
 	switch x := ins.(type) {
 	case *ssa.DebugRef:
 		if id, ok := x.Expr.(interface{ String() string }); ok {
@@ -582,7 +597,18 @@ func (g *Gen) instr(b *ssa.BasicBlock, idx int, ins ssa.Instruction) {
 	case *ssa.Store:
 		a := g.addrOf(x.Addr)
 		g.safety("nil", "store", fmt.Sprintf("(not (= %s 0))", a.Base), x.Pos())
+		var bv ssa.Value
+		switch ad := x.Addr.(type) {
+		case *ssa.IndexAddr:
+			bv = ad.X
+		case *ssa.FieldAddr:
+			bv = ad.X
+		}
+		if _, isSt := structOf(x.Val.Type()); !isSt && bv != nil {
+			g.curStore = &storeRec{base: a.Base, baseVal: bv}
+		}
 		g.storeValue(a, x.Val.Type(), g.term(x.Val).S, 0)
+		g.curStore = nil
 	case *ssa.FieldAddr:
 		g.fieldAddr(x)
 	case *ssa.IndexAddr:
@@ -1396,4 +1422,44 @@ func (g *Gen) realDiv(y ssa.Value, a, b string) string {
 	}
 	g.declFun("rdiv", "(Real Real) Real")
 	return fmt.Sprintf("(rdiv %s %s)", a, b)
+}
+
+// preciseLoopWrites: if every write to heap n inside the loop headed by h is a single-location store whose
+// base (object reference / array) is loop-invariant, return those bases.
+func (g *Gen) preciseLoopWrites(h *ssa.BasicBlock, n string) ([]string, bool) {
+	if g.pass1 == nil || strings.HasPrefix(n, "$") {
+		return nil, false
+	}
+	seen := map[string]bool{}
+	var bases []string
+	for bb := range g.loopBody[h] {
+		if g.pass1.imprecise[bb][n] {
+			return nil, false
+		}
+		for _, r := range g.pass1.storeRecs[bb][n] {
+			if !g.loopInvariant(h, r.baseVal) {
+				return nil, false
+			}
+			if !seen[r.base] {
+				seen[r.base] = true
+				bases = append(bases, r.base)
+			}
+		}
+	}
+	if len(bases) == 0 || len(bases) > 4 {
+		return nil, false
+	}
+	sort.Strings(bases)
+	return bases, true
+}
+
+func (g *Gen) loopInvariant(h *ssa.BasicBlock, v ssa.Value) bool {
+	switch x := v.(type) {
+	case *ssa.Parameter, *ssa.FreeVar, *ssa.Global, *ssa.Const:
+		return true
+	case ssa.Instruction:
+		b := x.Block()
+		return b != nil && !g.loopBody[h][b] && b.Dominates(h)
+	}
+	return false
 }
